@@ -51,6 +51,15 @@ theorem active_foldl_unpark (l : List Nat) (ths : Threads) :
   | nil => rfl
   | cons t l ih => simp only [List.foldl_cons, ih, active_unpark]
 
+theorem active_wake (ths : Threads) (t : Nat) : (ths.wake t).active = ths.active := by
+  unfold Threads.wake; split <;> rfl
+
+theorem active_foldl_wake (l : List Nat) (ths : Threads) :
+    (l.foldl (fun ths t => ths.wake t) ths).active = ths.active := by
+  induction l generalizing ths with
+  | nil => rfl
+  | cons t l ih => simp only [List.foldl_cons, ih, active_wake]
+
 theorem active_atomic_fenceAcq (a : Atomic) (ths : Threads) :
     (a.fenceAcq ths).active = ths.active := by
   unfold Atomic.fenceAcq
@@ -101,6 +110,10 @@ macro "post_leaf" : tactic => `(tactic| first
      rw [active_unpark]; assumption)
   | (apply GoodT.of_act; show (Threads.active (List.foldl _ _ _)).isSome = true
      rw [active_foldl_unpark]; assumption)
+  | (apply GoodT.of_act; show (Threads.wake _ _).active.isSome = true
+     rw [active_wake]; assumption)
+  | (apply GoodT.of_act; show (Threads.active (List.foldl _ _ _)).isSome = true
+     rw [active_foldl_wake]; assumption)
   | (apply GoodT.of_act; show (World.fenceAcq _).exec.threads.active.isSome = true
      rw [active_world_fenceAcq]; assumption)
   | (apply GoodT.of_act; show (World.fenceSC _).exec.threads.active.isSome = true
@@ -138,14 +151,18 @@ theorem schedule_post (e : Exec) (b : Bool) :
   ⟨fun r hr hn => schedule_none e r.1 b r.2 hr hn⟩
 macro_rules | `(tactic| post_spec) => `(tactic| with_reducible exact schedule_post ..)
 
-theorem branch_post (w : World) (obj : Nat) (act : Action) (block : Bool) :
-    Post (w.branch obj act block) (fun w' => GoodT w'.exec.threads) := by
+theorem branch_post (w : World) (obj : Nat) (act : Action) (block wait : Bool) :
+    Post (w.branch obj act block wait) (fun w' => GoodT w'.exec.threads) := by
   unfold World.branch; post
 macro_rules | `(tactic| post_spec) => `(tactic| with_reducible exact branch_post ..)
 
 theorem yieldNow_post (w : World) : Post w.yieldNow (fun w' => GoodT w'.exec.threads) := by
   unfold World.yieldNow; post
 macro_rules | `(tactic| post_spec) => `(tactic| with_reducible exact yieldNow_post ..)
+
+theorem blockNow_post (w : World) : Post w.blockNow (fun w' => GoodT w'.exec.threads) := by
+  unfold World.blockNow; post
+macro_rules | `(tactic| post_spec) => `(tactic| with_reducible exact blockNow_post ..)
 
 theorem threadDone_post (w : World) : Post w.threadDone (fun w' => GoodT w'.exec.threads) := by
   unfold World.threadDone; post
